@@ -66,6 +66,11 @@ PROPERTIES["C05"] = dict(
              quick=dict(params=dict(S=3, N=3)), thorough=dict(params=dict(S=4, N=4)), args=dict(sample_every=101)),
         dict(pkg="inference", files=INFER_FILES, entry="Harness_C05_L2",
              quick=dict(params=dict(S=2, N=3)), thorough=dict(params=dict(S=2, N=4)), args=dict(sample_every=997)),
+        # partitions of the constraints into upstream packages (facts through Export / the codec / ObserveUpstream)
+        dict(pkg="inference", files=INFER_FILES, entry="Harness_C06", name="_upstream_fan",
+             quick=dict(params=dict(TOPO=3, SP=2, NP=1, NP0=0, NP4=0, ONLYBASE=1, KINDS=3)), thorough=dict(params=dict(TOPO=3, SP=2, NP=1, NP0=1, NP4=1, ONLYBASE=1, KINDS=3)), args=dict(sample_every=499)),
+        dict(pkg="inference", files=INFER_FILES, entry="Harness_C06_Chain", name="_upstream_chain",
+             quick=dict(params=dict(L=5)), thorough=dict(params=dict(L=6)), args=dict(sample_every=499)),
     ],
 )
 
@@ -75,7 +80,7 @@ C06_EXPL = ("symx executes InferredMap.Export, chooseSitesToExport, inferredValD
 
 PROPERTIES["C06"] = dict(
     explanation=C06_EXPL,
-    bounds=dict(quick="two packages A<-B: <=2 constraints each (source/sink/flow) over 2+2 sites with symbolic exported flags; export step alone: <=3 constraints over 4 sites",
+    bounds=dict(quick="two packages A<-B: <=2 constraints each (source/sink/flow) over 2+2 sites with symbolic exported flags; export step alone: <=3 constraints over 4 sites; a chain of 5 flows over 6 sites in all 120 orders with symbolic exported flags; increment: A<-B<-C over the two sites of A (1,1,2 constraints)",
                 thorough="A<-B with annotations too (5 kinds); export step alone: <=4 flows over 5 sites and <=4 constraints (3 kinds) over 4 sites"),
     outside=["the bytes produced by encoding/gob + s2 (the codec is executed for real only in the native replay of sampled paths and counterexamples; under symx it is modelled as a structural copy that drops the unexported index)",
              "contract/affiliation/nolint facts", "graphs beyond the bound"],
@@ -86,14 +91,18 @@ PROPERTIES["C06"] = dict(
              quick=dict(params=dict(TOPO=0, SP=2, NP=2, KINDS=3)), thorough=dict(params=dict(TOPO=0, SP=2, NP=2, KINDS=5)), args=dict(sample_every=1999)),
         dict(pkg="inference", files=INFER_FILES, entry="Harness_C06_Export",
              quick=dict(params=dict(SP=4, NA=3, KINDS=3)), thorough=dict(params=dict(SP=5, NA=4, KINDS=1)), args=dict(sample_every=499)),
+        dict(pkg="inference", files=INFER_FILES, entry="Harness_C06_Chain",
+             quick=dict(params=dict(L=5)), thorough=dict(params=dict(L=6)), args=dict(sample_every=499)),
+        dict(pkg="inference", files=INFER_FILES, entry="Harness_C06", name="_increment",
+             quick=dict(params=dict(TOPO=1, SP=2, NP=1, NP2=2, ONLYBASE=1, KINDS=3)), thorough=dict(params=dict(TOPO=1, SP=2, NP=2, NP2=2, ONLYBASE=1, KINDS=3)), args=dict(sample_every=499)),
     ],
 )
 
 PROPERTIES["C03"] = dict(
     explanation=C06_EXPL + " C03 uses the chain A<-B<-C (C receives A's fact only transitively) and the diamond A<-{B,C}<-D; the modular result (one engine per package, facts through the codec) "
                 "is compared with the whole-program reference over the union of all constraints.",
-    bounds=dict(quick="chain of 3 packages: <=1 constraint each over 2 sites per package; diamond of 4 packages: <=1 constraint each over 1 site per package; dependency facts handed over in every order",
-                thorough="chain of 3: <=2 constraints each; diamond: <=1 constraint each over 2 sites per package"),
+    bounds=dict(quick="chain of 3 packages: <=1 constraint each over 2 sites per package; diamond of 4 packages: <=1 constraint each over 1 site per package; chain of 3 over the two sites of the base package (1,1,2 constraints); fan base <- 3 siblings <- top (1 constraint per sibling over the two base sites); dependency facts handed over in every order",
+                thorough="chain of 3: <=2 constraints each; diamond with annotations; fan with constraints in base and top too"),
     outside=["real drivers (go vet -vettool, nogo), real serialisation bytes", "contracts/affiliation/nolint facts", "position re-keying across packages (C15)", "everything above the inference engine"],
     assumptions=COMMON_ASSUMPTIONS + ["a package mentions only its own sites and exported sites of its dependencies",
                                       "go/analysis hands every package the facts of all transitive dependencies (documented driver behaviour)"],
@@ -101,7 +110,11 @@ PROPERTIES["C03"] = dict(
         dict(pkg="inference", files=INFER_FILES, entry="Harness_C06",
              quick=dict(params=dict(TOPO=1, SP=2, NP=1, KINDS=3)), thorough=dict(params=dict(TOPO=1, SP=2, NP=2, KINDS=3)), args=dict(sample_every=499)),
         dict(pkg="inference", files=INFER_FILES, entry="Harness_C06", name="diamond",
-             quick=dict(params=dict(TOPO=2, SP=1, NP=1, KINDS=3)), thorough=dict(params=dict(TOPO=2, SP=2, NP=1, KINDS=3)), args=dict(sample_every=1999)),
+             quick=dict(params=dict(TOPO=2, SP=1, NP=1, KINDS=3)), thorough=dict(params=dict(TOPO=2, SP=1, NP=1, KINDS=5)), args=dict(sample_every=1999)),
+        dict(pkg="inference", files=INFER_FILES, entry="Harness_C06", name="_chain3_base",
+             quick=dict(params=dict(TOPO=1, SP=2, NP=1, NP2=2, ONLYBASE=1, KINDS=3)), thorough=dict(params=dict(TOPO=1, SP=2, NP=2, NP2=2, ONLYBASE=1, KINDS=3)), args=dict(sample_every=499)),
+        dict(pkg="inference", files=INFER_FILES, entry="Harness_C06", name="_fan",
+             quick=dict(params=dict(TOPO=3, SP=2, NP=1, NP0=0, NP4=0, ONLYBASE=1, KINDS=3)), thorough=dict(params=dict(TOPO=3, SP=2, NP=1, NP0=1, NP4=1, ONLYBASE=1, KINDS=3)), args=dict(sample_every=499)),
     ],
 )
 
@@ -117,6 +130,8 @@ PROPERTIES["C11"] = dict(
     runs=[
         dict(pkg="diagnostic", files=["diagnostic/zz_verif_c11.go", "diagnostic/zz_verif_c14.go", "diagnostic/zz_verif_c04k1.go"], entry="Harness_C11",
              quick=dict(params=dict(N=2, R=2)), thorough=dict(params=dict(N=3, R=1)), args=dict(sample_every=997)),
+        dict(pkg="diagnostic", files=["diagnostic/zz_verif_c11.go", "diagnostic/zz_verif_c14.go", "diagnostic/zz_verif_c04k1.go"], entry="Harness_C11_Flow",
+             quick=dict(params=dict(N=2)), thorough=dict(params=dict(N=3)), args=dict(sample_every=13)),
     ],
 )
 
@@ -167,6 +182,8 @@ PROPERTIES["C04"] = dict(
     runs=[
         dict(pkg="diagnostic", files=["diagnostic/zz_verif_c11.go", "diagnostic/zz_verif_c14.go", "diagnostic/zz_verif_c04k1.go"], entry="Harness_C04_K1", map_order=True,
              quick=dict(params=dict(STMTS=2)), thorough=dict(params=dict(STMTS=3)), args=dict(sample_every=499)),
+        dict(pkg="diagnostic", files=["diagnostic/zz_verif_c11.go", "diagnostic/zz_verif_c14.go", "diagnostic/zz_verif_c04k1.go"], entry="Harness_C04_K5",
+             quick=dict(params=dict(N=2)), thorough=dict(params=dict(N=3)), args=dict(sample_every=29)),
         dict(pkg="inference", files=INFER_FILES, entry="Harness_C04_K2", map_order=True,
              quick=dict(params=dict(ENTRIES=2)), thorough=dict(params=dict(ENTRIES=3)), args=dict(sample_every=199)),
         dict(pkg="inference", files=INFER_FILES, entry="Harness_C04_K3", map_order=True,
